@@ -116,6 +116,12 @@ def lifecycle_descs(tier, seed, hib_values=(False, True), objs=("twofunnel", "pl
         for hib in hib_values:
             out.append(("bounded", dict(engines=list(eng), gens=1, Mh=6, hib=hib, seed=s + j, choices="GLS", lsc=[None, "allchildren", {"kind": "metaepoch", "m": 1 + j % 2}],
                                         gsc={"kind": "horizon"}, maximize=bool(j % 2), obj="twofunnel", sprout={"kind": "scripted", "L": 2, "default": 1})))
+    # a CMA-ES middle level on an objective whose optimum is a corner of the box: its best individuals sit exactly on faces, and
+    # they are the seeds of population-based children; a generator that lists the parents in another order than level by level
+    for j, eng in enumerate([("SEA", "CMAf", "SEA"), ("DE", "CMAw", "GA"), ("LHS", "CMAs", "DE"), ("SEA", "CMAf", "SHADE"), ("SEA", "DE", "SEA"), ("DE", "SEA", "DE")]):
+        out.append(("bounded", dict(engines=list(eng), gens=2, Mh=5, hib=bool(j % 2), seed=s + j, choices="GLS", lsc=[None, None, {"kind": "metaepoch", "m": 1 + j % 2}],
+                                    gsc={"kind": "horizon"}, maximize=bool(j % 2), obj="lin_corner", box=("B_asym", "B_sym")[j % 2], gen_order=("reverse", "interleave")[j % 2],
+                                    sprout={"kind": "scripted", "L": 2, "default": 1})))
     # more than ten children of one parent (ids with two digits), no deviations
     for j, eng in enumerate([("SEA", "DE"), ("DE", "SEA", "SHADE"), ("LHS", "CMAf")]):
         out.append(("bounded", dict(engines=list(eng), gens=1, Mh=13, hib=bool(j % 2), seed=s + j, choices="", lsc=[None] + [{"kind": "metaepoch", "m": 1}] * (len(eng) - 1),
@@ -164,6 +170,11 @@ def mechanism_descs(tier, seed):
             out.append(dict(engines=list(eng), gens=1 + k % 2, Mh=5, hib=bool(k % 2), seed=s + k % 2, choices="GL", maximize=bool((k // 2) % 2),
                             lsc=[None] + [lscs[(k + j) % len(lscs)] for j in range(1, len(eng))], sprout=sp,
                             obj=("twofunnel", "sphere_in", "plateau", "tiny_offset")[k % 4], box=("B_asym", "B_sym")[k % 2], print_at_boundaries=bool(k % 3 == 0)))
+    # a local-search MIDDLE level under the local-method generator (which offers the result of a just-finished search): on an
+    # objective whose optimum is a corner of the box the seeds of the population-based grandchildren lie exactly on faces
+    for j, eng in enumerate([("SEA", "LOC", "SEA"), ("DE", "LOC", "GA"), ("LHS", "LOC", "DE"), ("SEA", "LOC", "SHADE"), ("SEAX", "LOC", "SEAX")]):
+        out.append(dict(engines=list(eng), gens=1, Mh=5, hib=bool(j % 2), seed=s + j, choices="GL", maximize=bool(j % 2), lsc=[None, None, {"kind": "metaepoch", "m": 2}],
+                        sprout={"kind": "nbclocal", "L": 2, "gen": 1.0, "trunc": 1.0, "fil": 0.0}, obj="lin_corner", box=("B_asym", "B_sym")[j % 2], loc_maxiter=60))
     return out
 
 
